@@ -29,7 +29,7 @@ def sh(cmd, cwd=None, env=None, timeout=1800):
 def run_tests(wt):
     rc, out = sh('%s -m pytest -q -p no:cacheprovider --timeout=900 --continue-on-collection-errors -rA 2>&1 | '
                  'grep -E "^(PASSED|FAILED|ERROR|XFAIL|XPASS)" | sort' % PY, cwd=wt,
-                 env=dict(os.environ, PYTHONPATH=wt))
+                 env=dict(os.environ, PYTHONPATH=wt, OPENBLAS_NUM_THREADS='1', OMP_NUM_THREADS='1', MKL_NUM_THREADS='1'))
     return out
 
 
